@@ -34,6 +34,7 @@ def regenerate_all():
     from lib import drvgen, apigen, reggen, enumgen, blehgen, dbggen
     drvgen.translate()
     dbggen.translate()
+    dbggen.translate_flog()
     apigen.translate()
     reggen.translate()
     enumgen.translate()
